@@ -17,11 +17,14 @@
    The time clause over whole runs as well (Proofs/WorldLogTime.v): every hand-over in the history took exactly the
    entries queued for its destination since the previous hand-over, each queued at most one collection timeout earlier
    (intime), and what is still pending has a timeout due at most one collection timeout after its queue time.
-   NOT proved as ONE statement: that the BYTES in the out trace decode to the handed-over entries (that link is C02 /
-   C08_id_and_flag_on_the_wire per transmission); decided on every run by the correspondence and the extracted
-   check_C15. *)
-From PS Require Import Lib.Base Generated.Consts Model.SdTypes Model.Config Model.Session Model.StackTypes Model.Stack
-  Model.StackIO Spec.AnnSpec Proofs.QueueProofs Proofs.WorldInv Proofs.WorldTime Proofs.WorldDone Proofs.WorldDeadline Proofs.WorldLog Proofs.WorldLogTime.
+   The wire as well: in every reachable state the datagrams in the observable trace are exactly the logged
+   transmissions, encoded (C15_wire_is_the_history), and an encoded transmission decodes - SOME/IP header, SD header,
+   option resolution - to exactly the entries handed to send_sd with the session id and reboot flag it was given
+   (C15_transmitted_datagram_decodes; for entries whose options are well formed, the domain of C02).
+   What the theorems do not cover is the implementation itself: that is the correspondence (complete traces, bytes and
+   ticks, model versus real stack) and the extracted check_C15 on every run. *)
+From PS Require Import Lib.Base Generated.Consts Model.SdTypes Model.Config Model.Session Model.Someip Model.SdCodec Model.StackTypes Model.Stack
+  Model.StackIO Spec.AnnSpec Proofs.QueueProofs Proofs.WorldInv Proofs.WorldTime Proofs.WorldDone Proofs.WorldDeadline Proofs.WorldLog Proofs.WorldLogTime Proofs.SdMsgProofs Proofs.WireProofs.
 
 Theorem C15_conservation : forall ops s d, QInv s ->
   sent_for d (snd (q_run s ops)) ++ pending_for (fst (q_run s ops)) d = pending_for s d ++ queued_for d ops.
@@ -153,6 +156,19 @@ Example C15_intime_example :
   /\ intime 5 [(12, GFlush None [e]); (9, GQueue e None); (7, GQueue e None)] = false.
 Proof. exact intime_example. Qed.
 
+(* the observable transmissions are the logged ones, encoded - in every reachable state of every scenario *)
+Theorem C15_wire_is_the_history : forall s sc, d_scenario s = Some sc ->
+  let w := fst (run_scenario sc) in wire (out w) = gwire (glog w).
+Proof. exact reachable_wire. Qed.
+(* and one encoded transmission decodes to exactly what was handed to send_sd *)
+Theorem C15_transmitted_datagram_decodes : forall es f i b, Forall wf_rentry es -> sd_datagram es f i = Ok b ->
+  exists a p,
+    parse_msg b = Ok (mkMsg SD_SERVICE SD_METHOD 0 i 1 MT_NOTIFICATION 1 RC_E_OK p, [])
+    /\ parse_sd p = Ok (a, [])
+    /\ sd_reboot a = f
+    /\ resolve_sd a = Ok (mkSd es (sd_options a) f true 0).
+Proof. exact sd_datagram_decodes. Qed.
+
 (* non-vacuity of the checker's domain restriction: an ordinary offer entry is encodable, one with a 17-bit instance id is not *)
 Example C15_unencodable_examples :
   unencodable (mkEntry ET_OfferService 4369 1 1 3 7 [] [] None) = false
@@ -161,6 +177,8 @@ Proof. vm_compute. split; reflexivity. Qed.
 
 Print Assumptions C15_conservation.
 Print Assumptions C15_conservation_on_the_stack.
+Print Assumptions C15_wire_is_the_history.
+Print Assumptions C15_transmitted_datagram_decodes.
 Print Assumptions C15_every_hand_over_in_time_on_the_stack.
 Print Assumptions C15_pending_entries_have_a_deadline_on_the_stack.
 Print Assumptions C15_exactly_once_in_order_on_the_stack.
